@@ -53,6 +53,16 @@ def _cosim_inputs(a):
     lang, gs, omit = a[:3]
     user_templates = a[3] if len(a) > 3 else None
     with common.scratch("nvc08i_") as d:
+        if user_templates == "@partial":
+            # an INCOMPLETE user template directory: only the per-type entry templates (copied from the current built-ins); everything they
+            # extend/import is missing.  Either generation fails (nothing is produced, nothing to list) or every file it read is listed.
+            import nunavut.lang
+            src = pathlib.Path(nunavut.lang.__file__).parent / lang / "templates"
+            user_templates = str(d / "partial_templates")
+            os.makedirs(user_templates)
+            for n in ("StructureType.j2", "UnionType.j2", "ServiceType.j2", "DelimitedType.j2"):
+                if (src / n).exists():
+                    (pathlib.Path(user_templates) / n).write_text((src / n).read_text())
         base = ["--target-language", lang, "--generate-support", gs] + (["--omit-serialization-support"] if omit else []) \
             + (["--experimental-languages"] if lang != "c" else []) + (["--templates", user_templates] if user_templates else [])
         ns = str(common.VERIF / "data" / "ns1" / "vt")
@@ -129,6 +139,7 @@ def main(tier: str) -> int:
     icombos = [(l, g, o) for l in langs for g in ("as-needed", "never", "always") for o in (False, True)]
     # a user template directory whose templates include same-named files from different sub-directories
     icombos += [("c", "never", False, str(common.VERIF / "data" / "ut1")), ("c", "as-needed", True, str(common.VERIF / "data" / "ut1"))]
+    icombos += [(l, "never", False, "@partial") for l in ("c", "cpp", "py")]
     iok = 0
     for a, verdict, detail in common.pmap(_cosim_inputs, icombos):
         if verdict == "ok":
